@@ -1,4 +1,4 @@
-"""C18 deductive part: SpooledBytesIO.write/read/seek/tell/rollover against a file-object contract shared by BytesIO and the
+"""C18 deductive part: SpooledBytesIO.write/read/readline/seek/tell/len/getvalue/fileno/rollover against a file-object contract shared by BytesIO and the
 temporary file (contracts/spooled.py), MultiFileReader.seek(0) and the sized MultiFileReader.read(amt)."""
 from pyvc import driver
 from contracts import spooled as m
@@ -9,9 +9,10 @@ def run(ded, repo, tier):
                                    cvc5_first=True) for q in m.FUNCS])
     ded.trust('file-object contract (content, position) with read/write/seek/tell/getvalue/close as in io.BytesIO, assumed for '
               'both io.BytesIO and tempfile.TemporaryFile; os.SEEK_SET/CUR/END = 0/1/2')
+    ded.trust('os.fstat(f.fileno()).st_size == len(content) for the on-disk file (the preceding seek() flushed its buffer)')
     ded.assume('writes happen at a position <= len(content) (the statement speaks of appending writes)')
-    ded.trust('not under contract (bounded only): SpooledStringIO (code-point positions over a UTF-8 buffer), readline/readlines/'
-              'iteration/len/getvalue/truncate, the unsized MultiFileReader.read() (a generator expression with side effects)')
+    ded.trust('not under contract (bounded only): SpooledStringIO (code-point positions over a UTF-8 buffer), sized readline(n), readlines/'
+              'iteration/truncate, the unsized MultiFileReader.read() (a generator expression with side effects)')
     ded.trust('axiom: tl(n) = empty, tl(i) = content_i[pos_i:] ++ tl(i+1) - the recursive definition of "what is left to read from member i on" '
               'is given to the solver as a quantified defining axiom of an uninterpreted function')
     ded.assume('MultiFileReader members are distinct file objects whose positions lie inside their contents; the list `parts` is tracked '
